@@ -259,6 +259,11 @@ func c18RangeArgs(t *rapid.T, L int, needBoth bool) []string {
 		form = 2
 	}
 	idx := func(label string, bit bool) string {
+		if rapid.IntRange(0, 11).Draw(t, "huge") == 0 {
+			// indexes whose conversion between bytes and bits overflows 64 bits
+			return pick(t, label+"huge", "1152921504606846975", "1152921504606846976", "2305843009213693952", "4611686018427387904", "9223372036854775807",
+				"-1152921504606846976", "-2305843009213693953", "-4611686018427387905", "-9223372036854775808", "4294967296", "-4294967297")
+		}
 		lim := 8*L + 3
 		if !bit && rapid.IntRange(0, 3).Draw(t, "narrow") > 0 {
 			lim = L + 3
